@@ -369,7 +369,7 @@ func (b *backend) PropFind(r *http.Request, propfind *internal.PropFind, depth i
 		if err != nil {
 			return nil, err
 		}
-		if r.URL.Path == principalPath {
+		if samePath(r.URL.Path, principalPath) {
 			resp, err := b.propFindUserPrincipal(r.Context(), propfind)
 			if err != nil {
 				return nil, err
@@ -395,7 +395,7 @@ func (b *backend) PropFind(r *http.Request, propfind *internal.PropFind, depth i
 		if err != nil {
 			return nil, err
 		}
-		if r.URL.Path == homeSetPath {
+		if samePath(r.URL.Path, homeSetPath) {
 			resp, err := b.propFindHomeSet(r.Context(), propfind)
 			if err != nil {
 				return nil, err
@@ -630,7 +630,7 @@ func (b *backend) PropPatch(r *http.Request, update *internal.PropertyUpdate) (*
 
 	resp := internal.NewOKResponse(r.URL.Path)
 
-	if r.URL.Path == homeSetPath {
+	if samePath(r.URL.Path, homeSetPath) {
 		// TODO: support PROPPATCH for address books
 		for _, prop := range update.Remove {
 			emptyVal := internal.NewRawXMLElement(prop.Prop.XMLName, nil, nil)
@@ -771,4 +771,10 @@ func NewPreconditionError(err PreconditionType) error {
 			Raw: []internal.RawXMLValue{*elem},
 		},
 	}
+}
+
+// samePath checks whether two paths address the same resource: a collection
+// can be addressed with or without a trailing slash.
+func samePath(a, b string) bool {
+	return strings.TrimSuffix(a, "/") == strings.TrimSuffix(b, "/")
 }
